@@ -513,6 +513,19 @@ func (e *Env) call(x *ECall) SVal {
 			e.fail("cap of non-slice")
 		}
 		return iv(e.capOf(v))
+	case "beval":
+		// beval(s): the unsigned big-endian integer spelled by the bytes of s in the current state - an uninterpreted
+		// function of (array, first cell, length): math/big's Bytes/FillBytes/SetBytes are specified with it
+		need(1)
+		v := e.eval(args[0])
+		if v.Ty.K != KSlice || v.Str.S != "" {
+			e.fail("beval needs a byte slice")
+		}
+		if !e.g.declared["be_val"] {
+			e.g.declared["be_val"] = true
+			e.g.decls = append(e.g.decls, "(declare-fun be_val ((Array Int Int) Int Int) Int)")
+		}
+		return iv(app(SInt, "be_val", e.g.arr(e.cur, cellKey(v.Ty.Elem), SInt), v.T, v.Len))
 	case "bytes":
 		// bytes(s): the bytes of a string as a (virtual) byte slice, for len(), indexing and the segment predicates
 		need(1)
